@@ -229,6 +229,23 @@ def run_infer(env, rng, ws, wsfile, patchfiles, patches, heavy):
                     out["twice_nll"] = tb.tolist(r[-1])
                 return out
             env.judge("fit", args, stdin, lib, outfile=outfile, nondefault=nd, compare=lambda a, b: deep_close(a, b, 1e-6))
+    if heavy:
+        # optimiser choice and settings must survive the backend switch
+        be = rng.choice(["jax", "pytorch", "tensorflow"])
+        def lib_minuit():
+            w = pyhf.Workspace(ws)
+            model = w.model()
+            tb = set_lib_backend(be, "minuit", {"tolerance": 0.01})
+            r = pyhf.infer.mle.fit(w.data(model), model, return_fitted_val=True)
+            return {"mle_parameters": {k: tb.tolist(r[0][v["slice"]]) for k, v in model.config.par_map.items()}, "twice_nll": tb.tolist(r[-1])}
+        env.judge("fit", ["fit", wsfile, "--value", "--backend", be, "--optimizer", "minuit", "--optconf", "tolerance=0.01"], None, lib_minuit, nondefault=3, compare=lambda a, b: deep_close(a, b, 1e-6))
+        def lib_maxiter():
+            w = pyhf.Workspace(ws)
+            model = w.model()
+            set_lib_backend(be, "scipy", {"maxiter": 1})
+            return pyhf.infer.mle.fit(w.data(model), model)
+        # (a one-iteration SLSQP fit fails in the library: the command must fail as well)
+        env.judge("fit", ["fit", wsfile, "--backend", be, "--optconf", "maxiter=1"], None, lib_maxiter, nondefault=2)
     # failing: unknown measurement
     env.judge("cls", ["cls", wsfile, "--measurement", "no_such_measurement"], None, lambda: lib_model(ws, "no_such_measurement", []))
     env.judge("fit", ["fit", wsfile, "--measurement", "no_such_measurement"], None, lambda: lib_model(ws, "no_such_measurement", []))
